@@ -25,6 +25,7 @@ def check(case):
     if pieces != exp:
         res.fail('agrees-with-parse', '%d/%d' % (len(pieces), len(exp)), 'split=%r parse=%r' % ([p[:30] for p in pieces][:5], [p[:30] for p in exp][:5]))
     pos = 0
+    starts = {}
     for i, p in enumerate(pieces):
         if not isinstance(p, str) or p == '':
             res.fail('empty-piece', '', 'piece %d is %r' % (i, p))
@@ -35,6 +36,7 @@ def check(case):
         if not text.startswith(p, j):
             res.fail('partition', '', 'piece %d %r not found at %d (input there: %r)' % (i, p[:40], j, text[j:j + 40]))
             break
+        starts[i] = j
         pos = j + len(p)
     else:
         if text[pos:].strip() != '':
@@ -46,7 +48,15 @@ def check(case):
             res.failures.append(exc_failure('resplit-raises', e))
             continue
         if again != [p]:
-            res.fail('resplit', '%d' % len(again), 'split(piece) = %r for piece %r' % ([a[:40] for a in again][:4], p[:80]))
+            sig = '%d' % len(again)
+            j = starts.get(i)
+            if j is not None:
+                end = j + len(p)
+                if p.endswith('#') and text[end:end + 1] in (' ',) :
+                    sig = 'hash-comment-lost-its-blank'        # '# ' comment with empty body: strip() removes the blank that made it a comment
+                elif j > 0 and p[:1] in '[$:?' and (text[j - 1].isalnum() or text[j - 1] in '_"$])'):
+                    sig = 'lookbehind-at-piece-start'          # first token is lexed by a look-behind rule; its left context is gone
+            res.fail('resplit', sig, 'split(piece) = %r for piece %r' % ([a[:40] for a in again][:4], p[:80]))
     interior = len(pieces) == 1 and ';' in pieces[0][:-1]
     res.nontrivial = len(pieces) >= 2 or interior
     res.labels = ['>=2 pieces'] * (len(pieces) >= 2) + ['interior ;'] * interior + \
